@@ -3,6 +3,7 @@ package c13
 import (
 	"bytes"
 	"fmt"
+	"math/big"
 	"sync"
 
 	"github.com/zmap/zcrypto/x509"
@@ -60,6 +61,13 @@ func impostor(issuer, attacker int) *x509.Certificate {
 	t := pki.Spec{CN: fmt.Sprintf("C13 CA %d", issuer), Key: attacker, Serial: int64(7000 + attacker), CA: true, MaxPathLen: -1,
 		NotBefore: -365 * 86400, NotAfter: 3650 * 86400,
 		KeyUsage: int(x509.KeyUsageCertSign | x509.KeyUsageCRLSign | x509.KeyUsageDigitalSignature), EKU: []int{int(x509.ExtKeyUsageOcspSigning)}}.Template()
+	// a look-alike in everything but the key (and hence the signature): serial number, key
+	// identifiers and validity are the issuer's own, so that no shortcut of the form "this IS
+	// the issuer's certificate" can be satisfied by anything short of comparing keys or bytes
+	t.SerialNumber = new(big.Int).Set(real.SerialNumber)
+	t.SubjectKeyId = append([]byte{}, real.SubjectKeyId...)
+	t.AuthorityKeyId = append([]byte{}, real.AuthorityKeyId...)
+	t.NotBefore, t.NotAfter = real.NotBefore, real.NotAfter
 	c := pki.MustIssue(t, nil, keys.Get(attacker), keys.Get(attacker))
 	if !bytes.Equal(c.RawSubject, real.RawSubject) {
 		panic("c13: impostor subject DN differs from the issuer's")
